@@ -359,6 +359,39 @@ Definition add_tokens_to_lock (cfg : config) (st : state) (owner id amt : Z) : r
     Ok (increase_sf_delegation cfg st2 id l' amt)
   end.
 
+(* lockup MsgLockTokens: add to the owner's first bonded lock of the same denom and duration (ids ascending, as the
+   lock-reference index iterates), else create a new lock *)
+Fixpoint find_existing (st : state) (owner d dur : Z) (ids : list Z) : option Z :=
+  match ids with
+  | [] => None
+  | id :: r =>
+    match s_locks st id with
+    | Some l => if (l_owner l =? owner) && (l_denom l =? d) && (l_dur l =? dur) && (l_end l =? 0) then Some id
+                else find_existing st owner d dur r
+    | None => find_existing st owner d dur r
+    end
+  end.
+Definition lock_tokens (cfg : config) (st : state) (owner d amt dur : Z) : result (state * Z) :=
+  if (amt <=? 0) || (dur <? 0) then Err EPanic else
+  match find_existing st owner d dur (ids_upto (s_last st)) with
+  | Some id => do st' <- add_tokens_to_lock cfg st owner id amt; Ok (st', id)
+  | None => let id := s_last st + 1 in Ok (set_last (put_lock st id (mkLock owner d amt dur 0)) id, id)
+  end.
+
+(* MsgLockAndSuperfluidDelegate: LockTokens with the unbonding time as duration, then SuperfluidDelegate of that lock *)
+Definition lock_and_delegate (cfg : config) (st : state) (owner d amt v : Z) : result (state * Z) :=
+  do r <- lock_tokens cfg st owner d amt (c_unb cfg);
+  do st' <- superfluid_delegate cfg (fst r) owner (snd r) v;
+  Ok (st', snd r).
+
+(* MsgCreateFullRangePositionAndSuperfluidDelegate: a fresh lock holding the position's shares (the amount is an input:
+   the concentrated pool is not modelled), then SuperfluidDelegate *)
+Definition create_and_delegate (cfg : config) (st : state) (owner d amt v : Z) : result (state * Z) :=
+  if amt <=? 0 then Err EPanic else
+  let id := s_last st + 1 in
+  do st' <- superfluid_delegate cfg (set_last (put_lock st id (mkLock owner d amt (c_unb cfg) 0)) id) owner id v;
+  Ok (st', id).
+
 (* ---- epoch ---- *)
 (* how a multiplier is obtained (epoch.go UpdateOsmoEquivalentMultipliers / twap_price.go) *)
 Inductive minput :=
@@ -510,6 +543,9 @@ Definition force_unlock (cfg : config) (st : state) (sender id : Z) : result sta
 Inductive op :=
 | OLock (owner denom amt dur : Z)                 (* lockup CreateLock *)
 | OTopUp (owner id amt : Z)                       (* lockup AddTokensToLockByID (+ superfluid hook) *)
+| OLockTokens (owner denom amt dur : Z)           (* lockup MsgLockTokens *)
+| OLockAndDelegate (owner denom amt v : Z)        (* MsgLockAndSuperfluidDelegate *)
+| OCreateAndDelegate (owner denom amt v : Z)      (* MsgCreateFullRangePositionAndSuperfluidDelegate *)
 | ODelegate (sender id v : Z)                     (* MsgSuperfluidDelegate *)
 | OUndelegate (sender id : Z)                     (* MsgSuperfluidUndelegate *)
 | OUnbondLock (sender id : Z)                     (* MsgSuperfluidUnbondLock *)
@@ -531,6 +567,9 @@ Definition step (cfg : config) (st : state) (o : op) : result (state * Z) :=
       let id := s_last st + 1 in
       Ok (set_last (put_lock st id (mkLock owner d amt dur 0)) id, id)
   | OTopUp owner id amt => do st' <- add_tokens_to_lock cfg st owner id amt; Ok (st', 0)
+  | OLockTokens owner d amt dur => lock_tokens cfg st owner d amt dur
+  | OLockAndDelegate owner d amt v => lock_and_delegate cfg st owner d amt v
+  | OCreateAndDelegate owner d amt v => create_and_delegate cfg st owner d amt v
   | ODelegate sender id v => do st' <- superfluid_delegate cfg st sender id v; Ok (st', 0)
   | OUndelegate sender id => do st' <- superfluid_undelegate cfg st sender id; Ok (st', 0)
   | OUnbondLock sender id => do r <- unbond_lock st id sender None; Ok (fst r, 0)
